@@ -40,7 +40,65 @@ def identity(name, lhs, rhs):
         raise Fail('adjoint-' + name.split()[0], '%s: <w, J v> = %r but <J^T w, v> = %r' % (name, lhs, rhs))
 
 
+def mk_solver(name):
+    if name in ('direct', 'direct_asm'):
+        return lambda: om.DirectSolver(assemble_jac=(name == 'direct_asm'))
+    if name == 'lbgs':
+        return lambda: om.LinearBlockGS(maxiter=60, atol=1e-15, rtol=1e-15, iprint=-1)
+    if name in ('krylov', 'krylov_asm'):
+        return lambda: om.ScipyKrylov(assemble_jac=(name == 'krylov_asm'), atol=1e-15, rtol=1e-15, maxiter=500, iprint=-1)
+    return lambda: om.LinearRunOnce()
+
+
+def close(a, b, tol):
+    a, b = np.asarray(a, dtype=float), np.asarray(b, dtype=float)
+    return a.shape == b.shape and bool(np.all(np.abs(a - b) <= tol * np.maximum(1.0, np.maximum(np.abs(a), np.abs(b)))))
+
+
+def handle_solve(case):
+    """run_solve_linear on the group in fwd and rev: M x = b, M^T y = c (M = physical d(residuals)/d(outputs) of
+    the group, taken from an assembled twin), and <c, x> == <y, b>."""
+    name = case['solver']
+    exact = name == 'runonce'
+    tol = 0.0 if exact else 1e-9
+    asm = name.endswith('_asm')
+    probs = {m: c11.build(case, 'csc' if asm else None, m, solver=mk_solver(name)) for m in ('fwd', 'rev')}
+    twin = c11.build(case, 'csc', 'fwd')
+    for p, g, comps in list(probs.values()) + [twin]:
+        set_vals(case, comps)
+        p.model.run_linearize()
+    M = np.array(twin[1]._get_jacobian()._dr_do_mtx.todense())
+    n = M.shape[0]
+    rng = np.random.RandomState(n * 31 + len(case['v_in']))
+    b, c = rng.randint(-4, 5, n).astype(float), rng.randint(-4, 5, n).astype(float)
+    desc = 'run_solve_linear under %s' % name
+    try:
+        gf, gr = probs['fwd'][1], probs['rev'][1]
+        gf._dresiduals.set_val(b)
+        gf._doutputs.set_val(0.0)
+        gf.run_solve_linear('fwd')
+        x = gf._doutputs.asarray().copy()
+        gr._doutputs.set_val(c)
+        gr._dresiduals.set_val(0.0)
+        gr.run_solve_linear('rev')
+        y = gr._dresiduals.asarray().copy()
+        if not close(M @ x, b, max(tol, 0.0)):
+            raise Fail('solve-fwd', '%s (fwd): M x = %r for the right-hand side b = %r (x = %r)' % (
+                desc, (M @ x).tolist(), b.tolist(), x.tolist()))
+        if not close(M.T @ y, c, max(tol, 0.0)):
+            raise Fail('solve-rev', '%s (rev): M^T y = %r for the right-hand side c = %r (y = %r)' % (
+                desc, (M.T @ y).tolist(), c.tolist(), y.tolist()))
+        lhs, rhs = dotx(c, x), dotx(y, b)
+        if not close(lhs, rhs, tol):
+            raise Fail('adjoint-solve', '%s: <c, M^-1 b> = %r but <M^-T c, b> = %r' % (desc, lhs, rhs))
+    except Fail as f:
+        return {'res': '__none__', 'ok': False, 'msg': f.msg, 'sig': 'C02:' + f.sig, 'kind': 'solve:' + name}
+    return {'res': '__none__', 'ok': True, 'msg': '', 'sig': '', 'kind': 'solve:' + name}
+
+
 def handle(case):
+    if case['kind'] == 'solve':
+        return handle_solve(case)
     probs = {m: c11.build(case, None, m) for m in ('fwd', 'rev')}
     asm = {m: c11.build(case, 'csc', m) for m in ('fwd', 'rev')}
     for p, g, comps in list(probs.values()) + list(asm.values()):
